@@ -887,6 +887,17 @@ CLAIMS["C04"]["note"] += (
     "every loop iteration and call cycle advances, spends parser fuel or stops) are proved for the whole grammar, replacing the "
     "'searched, not proved' argument for match_arm_list and all list loops; file_consumes_all_tokens is unconditional.")
 
+CLAIMS["C11"]["note"] += (
+    " Round 11 (parse worker): Model/PrattGrammar.lean bridges the Pratt model of these theorems and the event-tied grammar model "
+    "(Model/Grammar.lean). Proved: binding_power_tables_agree (both regenerated tables identical), pratt_is_grammar_upto4 (all 16105 "
+    "token lists of <= 4 tokens: Pratt accepts => the grammar model emits exactly the item tree of that Cst and consumes everything), "
+    "pratt_is_grammar_needs_fuel_bound (the unbounded statement is false beyond ~250 nested operators: parser fuel). Validated only: the "
+    "same agreement on every tree of the C11 streams at run time (56k token lists, 0 differences). NOT proved: pratt_is_grammar for all "
+    "token lists of bounded nesting (simulation lemma with a fuel invariant), so parse_print is still a theorem about Model/Pratt.lean.")
+CLAIMS["C12"]["note"] += (
+    " Fourth pass: Input's trivia skipping is modelled (Model/InputView.lean) and input_view proves that Input::nth/peek/eof/skip on "
+    "all tokens answer what the grammar model's look/isEof/bump answer on the non-trivia kinds (kindsOf = view, length = nonTrivia).")
+
 
 def main():
     checks = []
